@@ -842,6 +842,11 @@ func prepareNestedRound(col *collector, round int, known bool) *prepared {
 	for i, ok := range sequentialAgain(roots, p.targets) {
 		if !ok {
 			col.stat("nested_root_sequential_runs_disagree_left_out")
+			col.mu.Lock()
+			if _, have := col.res.Extra["nested_left_out_example"]; !have {
+				col.res.Extra["nested_left_out_example"] = where + "; " + p.targets[i].setup
+			}
+			col.mu.Unlock()
 			continue
 		}
 		p.live = append(p.live, i)
